@@ -423,6 +423,7 @@ Proof.
   - simpl in H. destruct (Nat.ltb slot (length (s_slots s))); [|discriminate]. inversion H; subst; clear H.
     rewrite frames_spawn. unfold all_frames in *. simpl.
     eapply ref_on_same; [apply same_ref_refl | | | exact Inv]; intros n; rewrite count_app; simpl; lia.
+  - simpl in H. destruct (Nat.ltb r (length (s_rrs s))); [|discriminate]. inversion H; subst; clear H. exact Inv.
 Qed.
 
 Lemma init_nodes_fields : forall k j n,
